@@ -414,7 +414,7 @@ pub fn generate(ctx: &mut Ctx) {
             let mut used: Vec<(usize, u8)> = vec![];
             for _ in 0..2 + ctx.rng.below(4) {
                 let m = ms[ctx.rng.below(ms.len() as u64) as usize];
-                let kind = ctx.rng.below(4) as u8;
+                let kind = ctx.rng.below(7) as u8;
                 if used.contains(&(m, kind)) {
                     continue;
                 }
@@ -423,7 +423,11 @@ pub fn generate(ctx: &mut Ctx) {
                     0 => phi,
                     1 => compose(&phi, -1, 1),
                     2 => compose(&phi, 1, 1),
-                    _ => compose(&phi, -1, 0),
+                    3 => compose(&phi, -1, 0),
+                    // non-monic: the leading coefficient enters the bound as a factor
+                    4 => compose(&phi, 2, 1),
+                    5 => compose(&phi, 3, -1),
+                    _ => compose(&phi, -2, 0),
                 };
                 if f.len() - 1 + g.len() - 1 > 18 {
                     continue;
